@@ -11,7 +11,7 @@ Definition oerr_code (e : oerr) : Z := match e with None => 0 | Some _ => 1 end.
 Definition opt_case := (opt_env * Z * host * list tentry * Z * Z)%type.
 Definition ok_opt (c : opt_case) : bool :=
   let '(env, kind, h, tr, t0, obs) := c in
-  let p := if kind =? 0 then opt_sync env else if kind =? 1 then opt_enable h else opt_disable_one (oe_master env) h in
+  let p := if kind =? 0 then opt_sync env else if kind =? 1 then opt_enable h else opt_disable_one (ov_master env) h in
   match replay p (init_rstate tr t0 []) with
   | RDone e rs => (oerr_code e =? obs) && drained rs
   | RPanic _ rs => (obs =? 2) && drained rs
